@@ -163,13 +163,19 @@ CLAIMED = {
             "asked, in order, for the selector of each name, each answer echoed that selector and carried 32 "
             "bytes, and the value returned under the name is exactly those bytes (state_hashes_exact, "
             "state_hash_exact); the public key returned is the device's whole answer to the query for exactly "
-            "the requested path (pubkey_verbatim); over generated tables: state selectors, flag offsets and "
+            "the requested path (pubkey_verbatim); the total difficulty is the big-endian value of the difficulty "
+            "answer after its header and the three flags are the three flag bytes in the documented order "
+            "(blockchain_state_verbatim); checkpoint, minimum difficulty and network are the three fields of the "
+            "69-byte parameters answer (parameters_verbatim); a heartbeat carries the answers to the five queries "
+            "sent in order - UD value first - with r, s the components of the DER signature answered "
+            "(heartbeat_verbatim); over generated tables: state selectors, flag offsets and "
             "network names are those of firmware bc_state.h / docs/protocol.md; big-endian difficulty read-back "
             "ignores leading zeros and round-trips below 2^288. The oracle Spec.C13.c13 recomputes the documented reply from the simulated "
             "genuine device's state and requires the implementation's reply to equal it field by field, and a "
             "uiHeartbeat to end in signer mode or report -905.",
-            "difficulty / flags / parameters / heartbeat reply assembly is tied by correspondence + oracle; the "
-            "simulated device stands for a genuine one; known finding F-13a"),
+            "the last step, from the device-layer values to the JSON field names of the reply, and the device mode "
+            "after a uiHeartbeat are tied by correspondence + oracle; the simulated device stands for a genuine "
+            "one; known finding F-13a"),
     "C15": ("Lean theorems about the framing between the device and the attestation file: the SGX quote envelope "
             "(fixed structs, u16-prefixed QE auth data, u16+u32-prefixed certification data, custom message) is "
             "parsed back field by field for every well-formed envelope with auth / cert data of any admissible "
